@@ -619,8 +619,17 @@ def discharge_one(ob, timeout_s=10.0, use_cvc5=True):
         return {"verdict": "unknown", "backend": "z3", "time": time.time() - t0,
                 "reason": "the only models found give int()/float()/lower() values CPython does not give them"}
     reason = s.reason_unknown()
-    # a cheap look for a small counterexample first (genuine if found): broken code is then reported in seconds
-    # instead of after every prover has used up its budget
+    smt2 = None
+    if use_cvc5 and os.path.exists(CVC5):
+        # cvc5 with a short budget first: it closes most of what z3's sequence solver leaves open within seconds
+        try:
+            smt2 = s.to_smt2()
+            if run_cvc5(smt2, min(3.0, timeout_s)) == "unsat":
+                return {"verdict": "proved", "backend": "cvc5", "time": time.time() - t0}
+        except Exception:  # noqa: BLE001
+            pass
+    # then a cheap look for a small counterexample (genuine if found): broken code is reported in seconds instead of
+    # after every prover has used up its budget
     m = bounded_refute(ob, min(5.0, timeout_s), 2)
     if m is not None:
         return {"verdict": "refuted", "backend": "z3 (quantifiers expanded on ranges within [0,2))",
